@@ -71,7 +71,13 @@ async def run(
         processes.append(process)
 
     # Wait for all processes to be done
-    await asyncio.gather(*processes)
+    try:
+        await asyncio.gather(*processes)
+    finally:
+        # If one process failed, the others must not be left pending.
+        for process in processes:
+            process.cancel()
+        await asyncio.gather(*processes, return_exceptions=True)
 
 
 async def sim_process(
@@ -153,17 +159,21 @@ async def next_step_settled(sim: SimRunner, world: World) -> bool:
             # A step may have been announced for a time after the end,
             # which our progress will never reach.
             await_time = min(sim.next_steps[0], end_time) if sim.next_steps else end_time
-            _, pending = await asyncio.wait(
-                [
-                    asyncio.create_task(sim.progress.has_reached(await_time)),
-                    asyncio.create_task(sim.newer_step.wait()),
-                ],
-                return_when="FIRST_COMPLETED",
-                timeout=world.rt_factor,
-            )
+            tasks = [
+                asyncio.create_task(sim.progress.has_reached(await_time)),
+                asyncio.create_task(sim.newer_step.wait()),
+            ]
+            try:
+                await asyncio.wait(
+                    tasks,
+                    return_when="FIRST_COMPLETED",
+                    timeout=world.rt_factor,
+                )
+            finally:
+                # (also when we are cancelled while waiting)
+                for task in tasks:
+                    task.cancel()
             sim.newer_step.clear()
-            for task in pending:
-                task.cancel()
             if world.rt_factor:
                 advance_progress(sim, world)
     return False
